@@ -14,7 +14,7 @@ META = {
             "restarts the iteration sequence and per-chunk metadata are compared and the newest file is cut at every offset and reopened "
             "(outcome per offset class predicted by the spec's torn-tail table).",
     "note": "Bounds: quick 4 chunks (one larger than the write buffer), queue size 2, 1 cut/truncate/restart exhaustively (one behaviour per "
-            "state), walks with 7 chunks; thorough 5 chunks, 2 cuts/truncates/restarts (22k states). File-size based cuts, pre-flush of a "
+            "state), walks with 7 chunks; thorough 5 chunks, 2 cuts/truncates/restarts (22k states, a seeded third replayed). File-size based cuts, pre-flush of a "
             "half-full buffer and histogram chunks are not modelled; torn header (4-7 bytes of an 8-byte header) excluded from the sweep; "
             "sweep runs on a seeded sample of the restarts. Trusted: hook placement, TLC, harness.",
     "technique": "TLA+ model (HeadChunks.tla) checked by TLC over all interleavings; TLC-generated interleavings replayed on the real "
@@ -43,13 +43,20 @@ def run(ctx):
         ctx.account(r)
     ctx.log("MC: %d generated / %d distinct, %d behaviours (%.0fs); MC_nokf %d distinct (%.0fs); SIM %d walks"
             % (mc.generated, mc.distinct, len(mc.emitted), mc.wall, nokf.distinct, nokf.wall, len(sim.emitted)))
-    behs = list(mc.emitted) + list(sim.emitted)
+    states = list(mc.emitted)
+    if not q:
+        # 22k states: replay a seeded third of them (the quick tier replays every state of its smaller model)
+        states = [b for i, b in enumerate(states) if (i + ctx.seed) % 3 == 0]
+    behs = states + list(sim.emitted)
     if not behs:
         raise vlib.Infra("no behaviours emitted")
     ctx.samples = [behs[len(behs) // 2], behs[-1]]
     inp = ctx.write_ndjson("behaviours.ndjson", behs)
     gr = ctx.go_test("tsdb/chunks", ["c25_headchunks_test.go"], "^TestVerifC25Replay$", env={"VERIF_IN": inp}, timeout="40m")
     ctx.absorb(gr, label="C25 replay")
+    if not gr.by_kind("done"):
+        # vlib.absorb tolerates a missing done record when violation records exist (known findings always produce one)
+        raise vlib.Infra("harness C25 replay did not finish (no done record):\n%s" % gr.out[-3000:])
     ctx.assumptions += [
         "bounded model: <=5 chunks exhaustively (7 by simulation), queue size 2-3, write buffer 64 KiB, chunks either tiny or larger than the buffer",
         "ReadYourWrite / PositionsAgree / CutSeqAgrees / IterComplete are checked as Prop \\/ KF-C25-1 (and raw with the trigger excluded)",
